@@ -12,6 +12,7 @@ pub fn dump(thorough: bool, dir: &str, mut whole: Vec<Value>) -> i32 {
     let schema = schemars::schema_for!(PortableRegistry);
     std::fs::write(format!("{dir}/schema.json"), serde_json::to_string(&schema).unwrap()).unwrap();
     let mut regs = regspace::registries(thorough);
+    regs.extend(regspace::length_ladder(thorough));
     let d = regspace::dom(thorough);
     let rich = regspace::Rich { d: &d };
     for c in rich.choices(if thorough { 3 } else { 2 }) {
